@@ -3,7 +3,7 @@ import numpy as np
 from props import c03 as B
 from props.c03 import (STD, KIND, POOL, COLNAMES, build, jval, unjval, jrow, db_json, jkw, kw_py, canon, call, is_err, short, rand_table)
 from props import c04 as H
-from pdb2sql import pdb2sql, many2sql, interface
+from pdb2sql import pdb2sql, many2sql, interface, transform
 
 ID = 'C15'
 LEVEL = 'proof'
@@ -17,11 +17,17 @@ RULE = ('Histories of 5-25 steps over a growing family of at most 6 database obj
         'derivation from live objects (db(**selection), interface(db), many2sql([db, ...])). After EVERY step the content of EVERY '
         'table of EVERY live object (SELECT * through its own connection) and its column names are compared with the model world '
         '(Model.wstep) and with the reference world of the property (C04 reference model per object + round-tripped snapshot at '
-        'derivation). All written values are exactly representable in the PDB columns, so the text round trip changes nothing but the '
+        'derivation). Modifications include the transform `transform.translation(db, vect[, chainID=...])` (said to the model as the '
+        'update_xyz of the values the object holds plus the vector). Coordinates cover every band of the 8-column format: the usual '
+        'small values, values that need all 8 columns with three decimals (>= 999.5 up to 9999.375, <= -99.5 down to -999.375; in the '
+        'initial structures, in written values and as results of translations) and larger magnitudes up to 5e7 / -9999999 where only '
+        '2 / 1 / 0 decimals fit. All written values are exactly representable in the PDB columns (`representable`: all their digits '
+        'are printed), so the text round trip changes nothing but the '
         'model number (not exported) and the added columns (dropped). Non-trivial: at least one derivation followed by a modification '
         'of the source or of the derivative.')
-ASSUMPTIONS = ['the text round trip is the identity on the values generated (multiples of 1/8 within the coordinate columns, short '
-               'names): what it does in general is C01/C02; here only snapshot time and independence are at stake']
+ASSUMPTIONS = ['the text round trip is the identity on the values generated (multiples of 1/8 in (-999.5, 9999.5), of 1/4, 1/2, 1 in the '
+               'bands where 2, 1, 0 decimals fit; short names): what it does on values that are rounded is C01/C02; here snapshot time, '
+               'independence and the precision of the snapshot over the whole coordinate range are at stake']
 TRUSTED = ['the Model driver runs the CONCRETE round trip Model.textRoundtrip (translated data2pdb, then the record loop of C01); the '
            'Spec driver uses its value on representable tables (Driver.B.roundtripRepresentable: model number reset, added columns '
            'dropped) -- Props.C15.roundtrip_is_readBack relates the two']
@@ -32,9 +38,62 @@ PDBPOOL['occ'] = [1.0, 0.5, 0.25]
 PDBPOOL['temp'] = [0.0, 10.0, 2.5, 12.0]
 
 
+# ---- coordinates "to PDB text precision" over the whole range the 8 columns can hold -----------------------------------------------
+# Every value below is written by the export with ALL its digits (so the snapshot must hold it exactly), fills the field in a
+# different way (sign column used or free, 3 / 2 / 1 / 0 decimals) and is exact in float32 (the carriers of update_xyz).
+SMALL = [0.0, 0.5, 1.25, -3.0, 7.75, 100.125, 2.0, 12.0, -0.125]
+WIDE3 = [999.5, 1000.0, 1234.125, 2048.875, 5000.625, 9999.375, -99.5, -100.0, -123.375, -512.625, -999.375]       # three decimals, no column to spare
+WIDE = [9999.5, 10000.0, 12345.25, 99999.25, 99999.5, 123456.5, 999999.0, 1234567.0, 9999999.0, 50000000.0,
+        -999.5, -1000.0, -1234.25, -9999.25, -9999.5, -12345.5, -99999.0, -123456.0, -9999999.0]                  # as many decimals as fit
+
+
+def decimals_that_fit(v):
+    """the property (C02): three decimals in (-999.5, 9999.5), beyond that as many as fit the 8 columns; one fewer within half a unit
+    of a power of ten (there the implementation may already have switched)"""
+    n = len(str(int(abs(v) + 0.5)))
+    return max(0, min(3, (6 if v < 0 else 7) - n))
+
+
+def representable(v):
+    """v is written with all its digits: the text round trip is the identity on it"""
+    from fractions import Fraction
+    return -1e7 + 0.5 < v < 1e8 - 0.5 and (Fraction(v) * 10 ** decimals_that_fit(v)).denominator == 1
+
+
+assert all(representable(v) and float(np.float32(v)) == v for v in SMALL + WIDE3 + WIDE)
+assert all(-999.5 < v < 9999.5 for v in WIDE3)
+
+
+def wide(v):
+    return v >= 999.5 or v <= -99.5
+
+
+TVECT = [0.0, 0.0, 0.125, -0.5, 1.0, 12.0, -100.0, -250.25, 1000.0, 1234.5, 5000.0, -1000.0, 9000.375, 20000.0, 123000.5, -12000.0, 2000000.0]
+assert all(float(np.float32(v)) == v for v in TVECT)
+
+
+def translate_step(db, op, rec):
+    """the REAL `transform.translation(db, vect, **selection)`.  What it must do is said to the model as the `update_xyz` of the values
+    the object holds NOW (read through its own `get`; the state was compared with the model after the previous step) plus the vector,
+    added here in plain Python (exact: multiples of 1/8 far below 2**53).  When a result would not be written with all its digits
+    (possible only if the generator's running copy has drifted from the object) the step degrades to the zero vector on all rows."""
+    kwj, kw = op['kw'], kw_py(op['kw'])
+    vect = [unjval(v) for v in op['vect']]
+    names = db._get_table_names()
+    tn = next((n for n in names if n.lower() == 'atom'), 'ATOM')
+    before = [list(r) for r in db.get('x,y,z', **kw)]
+    new = [[a + b for a, b in zip(r, vect)] for r in before]
+    if not new or not all(isinstance(x, float) and representable(x) for r in new for x in r):
+        kwj, kw, vect = [], {}, [0.0, 0.0, 0.0]
+        new = [list(r) for r in db.get('x,y,z')]
+    rec['as'] = {'name': 'update_xyz', 'values': [jrow(r) for r in new], 'tn': tn, 'kw': kwj}
+    return transform.translation(db, np.array(vect), **kw)
+
+
 def pv(rng, key):
     if KIND[key] == 'real':
-        return rng.choice([0.0, 0.5, 1.25, -3.0, 7.75, 100.125, 2.0, 12.0, -0.125])
+        u = rng.random()
+        return rng.choice(SMALL if u < 0.6 else WIDE3 if u < 0.85 else WIDE)
     if KIND[key] == 'int':
         return rng.choice([0, 1, 2, 3, 7, 12, -4, 250])
     pool = {'name': ['CA', 'N', 'C', 'O', 'CB', 'H1', '1'], 'resName': ['ALA', 'GLY', 'TRP', 'X'], 'chainID': ['A', 'B', 'X', 'c', '1'],
@@ -53,6 +112,12 @@ CHAINSETS = [['A', 'B'], ['C', 'D'], ['1', 'A'], ['X'], ['B', 'A', 'D'], ['c', '
 
 def start_table(rng, n):
     rows = rand_table(rng, n)
+    if rng.random() < 0.35:
+        # a structure far from the origin / a very large assembly: coordinates that fill all 8 columns ('%8.3f' still holds them)
+        for r in rows:
+            for j in (7, 8, 9):
+                if rng.random() < 0.5:
+                    r[j] = rng.choice(WIDE3)
     chains = rng.choice(CHAINSETS)
     for i, r in enumerate(rows):
         r[4] = chains[(i * len(chains)) // max(n, 1)] if rng.random() < 0.8 else rng.choice(chains)
@@ -87,7 +152,27 @@ def gen_world(rng, nsteps):
             n = len(rows)
             extras = o.extras if ti == 0 else []
             v = rng.random()
-            if v < 0.45:
+            low = [x.lower() for x in o.names]
+            if 'atom' in low and rng.random() < 0.12:
+                # a transform: transform.translation(db, vect[, chainID=...]) -- it reads and writes the table ATOM; the vector moves
+                # the (tracked) coordinates across the bands of the coordinate format while every result keeps all its digits
+                trows = o.tables[low.index('atom')]
+                kws = []
+                present = sorted(set(r[4] for r in trows))
+                if present and rng.random() < 0.4:
+                    kws = [('chainID', rng.sample(present, rng.randrange(1, len(present) + 1)))]
+                sel = [i for i in range(len(trows)) if H.py_holds(trows, i, kws, [])]
+                vect = [0.0, 0.0, 0.0]
+                for _ in range(12):
+                    cand = [rng.choice(TVECT) for _ in range(3)]
+                    if all(representable(trows[i][7 + j] + cand[j]) for i in sel for j in range(3)):
+                        vect = cand
+                        break
+                for i in sel:
+                    for j in range(3):
+                        trows[i][7 + j] += vect[j]
+                op = {'name': 'translate', 'vect': jrow(vect), 'kw': jkw(kws)}
+            elif v < 0.45:
                 cols = rng.sample(MODCOLS, rng.choice([1, 1, 2, 3]))
                 kws = [H.same_type_cond(rng, rows, n, extras) for _ in range(rng.choice([0, 1, 1]))]
                 sel = [i for i in range(n) if H.py_holds(rows, i, kws, extras)]
@@ -199,14 +284,23 @@ def nfix(c):
     return sum(1 for o in c['objs'] if o.get('fix'))
 
 
-def driver_line(c):
-    def strip(o):
+def driver_line(c, out=None):
+    steps = out if isinstance(out, list) else []
+    off = 1 if nfix(c) else 0
+
+    def strip(i, o):
         if o['w'] == 'modify':
-            return {'w': 'modify', 'k': o['k'], 'op': {k: v for k, v in o['op'].items() if k not in ('carrier', 'icarrier', 'kind')}}
+            op = o['op']
+            if op['name'] == 'translate':
+                # the model is told what the translation must write (see translate_step); a step that failed before it got there is
+                # sent as an update of nothing (an object that does not exist is IndexError on both sides; anything else disagrees)
+                st = steps[i + off] if i + off < len(steps) and isinstance(steps[i + off], dict) else {}
+                op = st.get('as') or {'name': 'update_xyz', 'values': [], 'tn': 'ATOM', 'kw': []}
+            return {'w': 'modify', 'k': o['k'], 'op': {k: v for k, v in op.items() if k not in ('carrier', 'icarrier', 'kind')}}
         return o
     # construction with fix_chainID=True = `_fix_chainID` applied to the freshly loaded table
     lead = [{'w': 'modify', 'k': k, 'op': {'name': 'fix_chainID'}} for k, o in enumerate(c['objs']) if o.get('fix')]
-    return {'op': 'world', 'objs': [{'kind': o['kind'], 'db': o['db']} for o in c['objs']], 'ops': lead + [strip(o) for o in c['ops']]}
+    return {'op': 'world', 'objs': [{'kind': o['kind'], 'db': o['db']} for o in c['objs']], 'ops': lead + [strip(i, o) for i, o in enumerate(c['ops'])]}
 
 
 def lead_ops(c):
@@ -244,7 +338,10 @@ def impl(ctx, c):
     if nfix(c):
         steps.append({'out': 'ok', 'objs': observe(objs)})
     for o in c['ops']:
-        if o['w'] == 'modify':
+        rec = {}
+        if o['w'] == 'modify' and o['op']['name'] == 'translate':
+            r = call(lambda: translate_step(objs[o['k']], o['op'], rec))
+        elif o['w'] == 'modify':
             r = call(lambda: H.apply_op(objs[o['k']], o['op']))
         elif o['w'] == 'sub':
             r = call(lambda: objs[o['k']](**kw_py(o['kw'])))
@@ -258,6 +355,8 @@ def impl(ctx, c):
         if not is_err(r) and o['w'] != 'modify':
             objs.append(r)
         steps.append({'out': r if is_err(r) else 'ok', 'objs': observe(objs)})
+        if 'as' in rec:
+            steps[-1]['as'] = rec['as']
     return steps
 
 
@@ -330,9 +429,25 @@ def distribution(recs):
             for o in r['impl'][-1]['objs']:
                 t = len(o['tabs'])
                 classes['%d table(s)' % t] = classes.get('%d table(s)' % t, 0) + 1
+    # derivations whose snapshot holds coordinates that fill the 8 columns (sign column used by a digit / fewer than three decimals fit)
+    bands = {'derivations': 0, 'with a coordinate >= 999.5 (three decimals, sign column used)': 0, 'with a coordinate <= -99.5 (three decimals)': 0,
+             'with a coordinate outside (-999.5, 9999.5) (fewer decimals fit)': 0}
+    for r in recs:
+        c = r['case']
+        for o, st in zip(lead_ops(c) + c['ops'], r['impl'] if isinstance(r['impl'], list) else []):
+            if o['w'] in ('sub', 'interface', 'many') and st['out'] == 'ok' and st['objs']:
+                try:
+                    vals = [float(B.unrat(row[j]['r'])) for t in st['objs'][-1]['tabs'] for row in t['rows'] for j in (7, 8, 9)
+                            if isinstance(row[j], dict) and 'r' in row[j]]      # rows of SELECT *: the standard columns
+                except Exception:                                             # noqa: evidence only
+                    vals = []
+                bands['derivations'] += 1
+                bands['with a coordinate >= 999.5 (three decimals, sign column used)'] += any(999.5 <= v < 9999.5 for v in vals)
+                bands['with a coordinate <= -99.5 (three decimals)'] += any(-999.5 < v <= -99.5 for v in vals)
+                bands['with a coordinate outside (-999.5, 9999.5) (fewer decimals fit)'] += any(v >= 9999.5 or v <= -999.5 for v in vals)
     fixed = {'sources loaded with fix_chainID=True, verbose=True': sum(nfix(r['case']) for r in recs),
              'default sources': sum(len(r['case']['objs']) - nfix(r['case']) for r in recs)}
-    return {'initial_objects': fixed, 'history_lengths': dict(sorted(nsteps.items())), 'steps_by_kind': dict(sorted(kinds.items())), 'step_outcomes': outs,
+    return {'initial_objects': fixed, 'snapshots_by_coordinate_band': bands, 'history_lengths': dict(sorted(nsteps.items())), 'steps_by_kind': dict(sorted(kinds.items())), 'step_outcomes': outs,
             'live_objects_at_end': dict(sorted(nobj.items())), 'objects_by_table_count': classes}
 
 
